@@ -49,17 +49,26 @@ def gen_block_spec(rng, kind):
     return {"kind": "update", "code": code, "version": version}
 
 
-def gen_blocks(rng, kinds=None):
+def gen_blocks(rng, kinds=None, foreign=False):
     if kinds is None:
         kinds = rng.choice(all_block_lists())
-    return [gen_block_spec(rng, k) for k in kinds]
+    specs = [gen_block_spec(rng, k) for k in kinds]
+    if foreign:
+        # blocks of kinds this library does not know (other tags): they have no decryptor by construction
+        used = set()
+        for _ in range(rng.choice((1, 1, 2))):
+            tag = rng.choice([t for t in (4, 5, 0x10, 0x7F, 0x80, 0xFE, 0xFF) if t not in used])
+            used.add(tag)
+            ln = rng.choice((0, 1, 16, 127, 128, 200, 255)) if rng.random() < 0.6 else rng.randrange(0, 256)
+            specs.insert(rng.randrange(len(specs) + 1), {"kind": "unknown", "tag": tag, "value": rng.randbytes(ln)})
+    return specs
 
 
 def spec_json(specs):
     out = []
     for s in specs:
         d = dict(s)
-        for k in ("key", "ck", "code"):
+        for k in ("key", "ck", "code", "value"):
             if d.get(k) is not None:
                 d[k] = d[k].hex()
         if "priv" in d:
@@ -72,7 +81,7 @@ def spec_from_json(j):
     out = []
     for d in j:
         d = dict(d)
-        for k in ("key", "ck", "code"):
+        for k in ("key", "ck", "code", "value"):
             if d.get(k) is not None:
                 d[k] = bytes.fromhex(d[k])
         if "priv" in d:
@@ -89,6 +98,8 @@ def real_auth_blocks(ns, specs):
             out.append(B.InitCustKeyAuthBlock())
         elif s["kind"] == "ecc":
             out.append(B.InitEccAuthBlock(s["sel"]))
+        elif s["kind"] == "unknown":
+            out.append(B.UnknownAuthBlock(s["tag"], s["value"]))
         else:
             out.append(B.UpdateAuthBlock(s["code"], s["version"]))
     return out
@@ -102,6 +113,8 @@ def encryptor_for(ns, s, for_reading):
     """the encryptor object that can write (and, for_reading, open) block s; None if
     the block needs none for writing (update block has a built-in default)"""
     B = ns.bec2file
+    if s["kind"] == "unknown":
+        return None
     if s["kind"] == "cust":
         if s["ck"] is not None:
             return B.SoftwareCustKeyEncryptor(s["key"], s["ck"], s["pos"])
@@ -121,7 +134,7 @@ def read_encryptors(ns, specs, subset=None):
     """decryptors for the blocks whose index is in subset (default: all)"""
     out = []
     for i, s in enumerate(specs):
-        if subset is None or i in subset:
+        if (subset is None or i in subset) and s["kind"] != "unknown":
             out.append(encryptor_for(ns, s, True))
     return out
 
@@ -147,3 +160,11 @@ def open_block_with_model(s, value):
 
 
 TAGS = {"cust": 1, "update": 2, "ecc": 3}
+
+
+def tag_of(s):
+    return s["tag"] if s["kind"] == "unknown" else TAGS[s["kind"]]
+
+
+def openable(specs):
+    return [i for i, s in enumerate(specs) if s["kind"] != "unknown"]
